@@ -75,21 +75,29 @@ def yaml_block(s, indent=2):
 
 
 def src_files(p, ver):
-    """abstract source version -> file set (0: base, 1: modified, 2: base + added file)"""
+    """abstract source version -> file set (0: base, 1: modified, 2: base + added file in a
+    sub-directory, 3: like 2 with that file modified in place)"""
     if ver == 0:
         return {"a.txt": "%s-0\n" % p}
     if ver == 1:
         return {"a.txt": "%s-1\n" % p}
-    return {"a.txt": "%s-0\n" % p, "sub/b.txt": "%s-x\n" % p}
+    if ver == 2:
+        return {"a.txt": "%s-0\n" % p, "sub/b.txt": "%s-x\n" % p}
+    return {"a.txt": "%s-0\n" % p, "sub/b.txt": "%s-y\n" % p}
 
 
-def render_bobbuild(proj, define=False):
+def deletes_files(old, new):
+    """does the source edit old -> new remove a file?"""
+    return bool(set(src_files("p", old)) - set(src_files("p", new)))
+
+
+def render_bobbuild(proj, define=False, prune=True):
     """proj = the `proj` record of specs/BobBuild.tla (as JSON). Returns relpath -> text
     for recipes/config and a dict of source trees. With define=True the value of V is not in
     default.yaml but must be passed as -DV=<value> on the command line."""
     files = {"config.yaml": CONFIG}
     files["default.yaml"] = "environment:\n  V: \"%s\"\nwhitelist: [VF_CTL]\n" % ("from-default-yaml" if define else proj["V"])
-    lib = ["checkoutSCM:", "  scm: import", "  url: src/lib", "  prune: True",
+    lib = ["checkoutSCM:", "  scm: import", "  url: src/lib", "  prune: %s" % ("True" if prune else "False"),
            "buildScript: " + yaml_block(build_script("lib", proj["bver"]["lib"], [])),
            "packageScript: " + yaml_block(package_script("lib", proj["pver"]["lib"])),
            "provideVars:", "  PV: \"%s\"" % proj["pv"]]
